@@ -136,8 +136,13 @@ def scenario_for(seed, index, tier, _depth=0, _proto=None):
     # written before the client has seen that packet would be in the old
     # framing - a race inherent in the protocol)
     pipeline = bool(plugins) and rng.random() < 0.3
+    # ... or even its login success (not what a vanilla server does; the
+    # answers then arrive when the server is already in the play state -
+    # still once each)
+    success_at_once = bool(plugins) and disc is None and not pipeline and \
+        rng.random() < 0.12
     logins = [{'steps': steps, 'disc': disc, 'late': late,
-               'pipeline': pipeline}]
+               'pipeline': pipeline, 'success_at_once': success_at_once}]
     if _depth == 0 and rng.random() < 0.3:
         # the same Connection object logs in a second time: nothing of the
         # first attempt (however it ended) may leak into the second
@@ -184,6 +189,9 @@ def scenario_for(seed, index, tier, _depth=0, _proto=None):
                                       # follows it in one piece, so the
                                       # client handles both in one pass and
                                       # nothing races
+                                      **({'success_no_wait': True}
+                                         if lg.get('success_at_once')
+                                         else {}),
                                       pipeline_plugins=(
                                           ('encrypt' if seg else 'all')
                                           if lg.get('pipeline') else False)))
@@ -464,6 +472,19 @@ def check_login(scenario, w, st, res, ids, k, lg, ob):
     answered = {}
     for _s, mid, ok, data in app.plugin_answers:
         answered.setdefault(mid, []).append((ok, data))
+    if lg.get('success_at_once') and \
+            ids['sb.login.plugin_response'] is not None:
+        # answers that reached the server after it had moved on to play
+        for _s, stt, pid, body, _m in app.frames:
+            if stt in ('play', 'paused') and \
+                    pid == ids['sb.login.plugin_response']:
+                try:
+                    mid, p_ = wire.read_varint(body, 0)
+                    answered.setdefault(mid, []).append(
+                        (body[p_] != 0, bytes(body[p_ + 1:])))
+                except Exception:
+                    pass
+        res.probes['login-success-before-plugin-answers'] = 1
     completed = ends_ok or True
     for mid in sorted(set(sent_plugins)):
         ob()
